@@ -19,9 +19,10 @@ CUTS = ['RocksDB -> structured-key store (Key::into_vec yields a structured key;
 
 
 def ex_filterblock(repo):
+    # add_fetched_header / add_fetched_tx are extracted with it: an edit that makes filter_block delegate part of its writes to them (a second, separate batch) still builds
     s = Source(repo, STORAGE)
     f = s.item(r'^    pub fn filter_block'); f.prefix = 'impl Storage {\n'; f.suffix = '\n}'
-    return [f]
+    return [f] + ex_fetched(repo)
 
 
 def ex_fetched(repo):
@@ -34,7 +35,7 @@ def ex_fetched(repo):
 def fetched_rows(ob_id):
     return KModelOb(ob_id, 'filterblock:fetched', 'fetched_rows', 'Storage::add_fetched_header / add_fetched_tx (real text): one atomic batch that always (re)writes the header row and the '
                     'number -> hash mapping of the proved block (get_transaction_with_header resolves the block by number) plus the transaction row (number, u32::MAX, tx)',
-                    lambda repo: ex_filterblock(repo) + ex_fetched(repo), 'arbitrary header (number, hash id), transaction, arbitrary "header already stored" flag', cuts=CUTS, timeout=900, mem_gb=8, min_covers=1, weight=2,
+                    ex_filterblock, 'arbitrary header (number, hash id), transaction, arbitrary "header already stored" flag', cuts=CUTS, timeout=900, mem_gb=8, min_covers=1, weight=2,
                     rustflags='--cfg fb_small --cfg fb_fetched', field_sensitivity=True)
 
 
